@@ -92,6 +92,7 @@ def add_speeds_case(n, k, head_end, param, exact=False, prop="C02"):
 
 
 def m_cases(tier):
+    tier = "thorough"  # the full case list is cheap enough to run on every change (the tiers differ only in validation vectors)
     cs = [insert_le_case(n) for n in ([1, 2, 3] if tier == "quick" else [1, 2, 3, 4, 5])]
     if tier == "quick":
         cs += [add_speeds_case(2, 1, True, None), add_speeds_case(2, 1, False, None), add_speeds_case(1, 2, False, None),
